@@ -1261,7 +1261,7 @@ def replay_file(path):
     return 0
 
 
-def minimise(violation, budget=120):
+def minimise(violation, budget=160):
     """ddmin-style shrinking of the op list, then of the dataset, while the same
     violation class persists."""
     rep = violation["replay"]
@@ -1320,6 +1320,36 @@ def minimise(violation, budget=120):
             got = attempt(dict(best, ops=ops))
             if got:
                 best, best_v = got
+    # move each remaining fault to the earliest position that still fails, and try the simplest kind there
+    for i, rec in enumerate(best["ops"]):
+        fault = rec.get("fault")
+        if not fault or "at" not in fault or steps >= budget:
+            continue
+        at = fault["at"]
+        for cand_at in sorted({0, 1, 2, at // 8, at // 4, at // 2, (3 * at) // 4}):
+            if cand_at >= at or steps >= budget:
+                continue
+            ops = [dict(o) for o in best["ops"]]
+            ops[i]["fault"] = dict(fault, at=cand_at)
+            got = attempt(dict(best, ops=ops))
+            if got:
+                best, best_v = got
+                break
+        fault = best["ops"][i].get("fault") if i < len(best["ops"]) else None
+        if fault and fault.get("layer") == "A" and fault.get("kind") == "raise" and fault.get("exc") != "OperationalError" \
+                and steps < budget:
+            ops = [dict(o) for o in best["ops"]]
+            ops[i]["fault"] = dict(fault, exc="OperationalError")
+            got = attempt(dict(best, ops=ops))
+            if got:
+                best, best_v = got
+    # knobs back to defaults where that keeps the failure
+    for key, default in (("cache_pages", None), ("verbosity", 0), ("logfile", False), ("b_every", 50)):
+        if steps >= budget or best["knobs"].get(key) == default:
+            continue
+        got = attempt(dict(best, knobs=dict(best["knobs"], **{key: default})))
+        if got:
+            best, best_v = got
     # shrink the dataset
     if best["dataset"].get("kind") == "synthetic":
         changed = True
